@@ -114,9 +114,9 @@ fn main() {
     }
     let quick = std::env::args().any(|a| a == "--quick");
     let frames_list: Vec<usize> = if quick {
-        vec![0, 1, HUGE_FRAMES + 1]
+        vec![0, 1, HUGE_FRAMES + 1, 16 * TREE_FRAMES + 1]
     } else {
-        vec![0, 1, 63, HUGE_FRAMES - 1, HUGE_FRAMES + 1, TREE_FRAMES + HUGE_FRAMES + 3]
+        vec![0, 1, 63, HUGE_FRAMES - 1, HUGE_FRAMES + 1, TREE_FRAMES + HUGE_FRAMES + 3, 16 * TREE_FRAMES + 1]
     };
     let mut cases = 0u64;
     for &frames in &frames_list {
